@@ -68,6 +68,22 @@ func inCriticalSection() bool {
 	}
 }
 
+// onLeavePath: the calling goroutine is inside RequestToLeave or executeLeave (before the key transfer)
+func onLeavePath() bool {
+	pcs := make([]uintptr, 48)
+	n := runtime.Callers(2, pcs)
+	frames := runtime.CallersFrames(pcs[:n])
+	for {
+		f, more := frames.Next()
+		if strings.HasSuffix(f.Function, ".RequestToLeave") || strings.HasSuffix(f.Function, ".executeLeave") {
+			return true
+		}
+		if !more {
+			return false
+		}
+	}
+}
+
 // nodeReg maps node ids to nodes; read by parked task goroutines, written by the driver
 type nodeReg struct {
 	mu sync.RWMutex
@@ -214,12 +230,19 @@ func (x *runner) run() {
 	x.byID = newReg()
 	x.never = make(chan struct{})
 	gates := x.sc.Gates
-	x.sched.Gates = func(p string) bool {
+	x.sched.GatesOp = func(p string, op *verifkit.Op) bool {
 		for _, g := range gates {
 			if strings.HasPrefix(p, g) {
-				if strings.HasPrefix(p, "ns:") && inCriticalSection() {
-					return false // never park while a membership lock is held: every other operation on that node would block
+				if strings.HasPrefix(p, "ns:") {
+					// sub-gate before a lifecycle transition: at most one park per protocol segment, never while a membership
+					// lock is held (every other operation on that node would block), only on the leave path
+					if op.SubParks > 0 || inCriticalSection() || !onLeavePath() {
+						return false
+					}
+					op.SubParks++
+					return true
 				}
+				op.SubParks = 0
 				return true
 			}
 		}
